@@ -218,7 +218,7 @@ def classify_key(key):
         return ("mem", "OUT")
     if "inner_nonlocal_names" in key:
         return ("mem", "INN")
-    if "target_names" in key:
+    if "target_names" in key or "comp_stack" in key:
         return ("mem", "COMP")
     if "globals_used_in_comp" in key:
         return ("mem", "GUC")
@@ -678,7 +678,61 @@ def rule_r7(ctx):
     return rr
 
 
+def rule_r9(ctx):
+    rr = RuleResult("C06-R9", "a name read inside nested comprehensions is tested against the targets of EVERY open comprehension")
+    rr.floor = 2
+    T = ctx.tmpl
+    root, leaves, glob = T.namespace_leaves()
+    for ci in leaves:
+        if ci is glob:
+            continue
+        ld = T.namespace_method(ci, "get_load_name")
+        rr.instances += 1
+        keys = sorted({k for p in ld.paths for k in p.assign if "target_names" in k})
+        what = f"{ci.name}|comprehension-targets"
+        if not keys:
+            rr.fail(f"C06-R9|{ci.name}|targets-not-consulted", f"{ci.name}.get_load_name never consults the targets of the open comprehensions: a comprehension variable that shadows a nonlocal/class-level name is read from the dict", where=ci.module.rel, what=what)
+        elif not all("comp_stack[*]" in k for k in keys):
+            rr.fail(
+                f"C06-R9|{ci.name}|innermost-only",
+                f"{ci.name}.get_load_name tests the name only against `{keys[0].split(':')[-1]}`, not against every comprehension on the stack: an inner comprehension that reads the OUTER comprehension's variable gets the enclosing function's/class's variable of the same name",
+                where=ci.module.rel, what=what,
+            )
+        else:
+            rr.ok(what, sample={"rule": "C06-R9", "class": ci.name, "test": keys[0]})
+    return rr
+
+
+def rule_r8(ctx):
+    from .common import cached
+    from .exprcopy import transf_entry_paths
+
+    rr = RuleResult("C06-R8", "expr_transf hands every expression, in every namespace, to the rewriting driver (validity of the summary X)")
+    rr.floor = 3
+    fi, paths = cached(ctx, "transf_entry_paths", lambda: transf_entry_paths(ctx))
+    for pr in paths:
+        rr.instances += 1
+        what = f"expr_transf|{short_ctx(pr, 100)}"
+        args = pr.extra.get("args") or [None, None]
+        r = pr.result
+        ok = pr.outcome == "ok" and isinstance(r, TNode) and r.kind == "$Cvt" and r.fields.get("node") is args[1] and r.fields.get("nsp") is args[0]
+        if ok:
+            rr.ok(what, sample={"rule": "C06-R8", "context": short_ctx(pr, 60), "verdict": "ExpressionTransformer(nsp).cvt(node)"})
+        elif pr.outcome == "raise":
+            rr.ok(what, nontrivial=False)
+        else:
+            from ..tmpl import show
+
+            rr.fail(
+                "C06-R8|expr_transf|bypass",
+                f"{fi.where()}: in the context [{short_ctx(pr, 100)}] expr_transf returns `{show(r, maxdepth=3)[:60]}` instead of the result of the rewriting driver on (nsp, node): names in the expression are not routed through the namespace, and expression kinds that must be rejected (yield, await, async comprehensions) are copied through",
+                where=fi.where(), what=what,
+            )
+    return rr
+
+
 RULES = [
+    ("C06-R8", rule_r8), ("C06-R9", rule_r9),
     ("C06-R1", rule_r1), ("C06-R2", rule_r2), ("C06-R3", rule_r3), ("C06-R4", rule_r4),
     ("C06-R5", rule_r5), ("C06-R6", rule_r6), ("C06-R7", rule_r7),
 ]
